@@ -1,2 +1,7 @@
+"""Cross-engine generators."""
+
+
 def storage_case_from_generated_index(rng):
-    return None
+    from .props import hist
+
+    return hist.storage_case_from_history(rng)
